@@ -196,6 +196,10 @@ fn main() {
                     }
                     events += 1;
                     i += 1;
+                    let b: basset::hub::CurrentBatchResponse = c.q("hub", &basset::hub::QueryMsg::CurrentBatch {});
+                    if b.id > rcfg.max_batch {
+                        break; // the specification's wait lists are functions over 1..MaxBatch: no probes beyond it either
+                    }
                     if probe_every > 0 && i % probe_every == 0 {
                         let mut ps = drive::probes(&c, &rcfg, &menu.probes, &mut rng);
                         if auth_probes {
